@@ -197,6 +197,7 @@ def check_static(l, rng, out):
         f = L[k]
         if f.offset != o or f.width != lsize(s):
             raise V("field-placement", key=k, got=[f.offset, f.width], expected=[o, lsize(s)])
+    check_mapping_not_aliased(l, rng, out)
     lp = leaf_paths(l)
     for raw in raws_for(l, rng):
         c = L.from_bits(raw)
@@ -226,6 +227,45 @@ def check_static(l, rng, out):
             out["extra"]["fields_read"] += 1
             if got != exp:
                 raise V("field-read-back", raw=raw, path=list(path), got=got, expected=exp, leaf=leaf)
+
+
+def check_mapping_not_aliased(l, rng, out):
+    """The placement declared when the layout was constructed stays the layout's placement: the mapping handed to
+    the constructor is edited afterwards (a field table extended step by step, a variant made by changing one
+    entry) and the layout built earlier is checked again."""
+    from amaranth.lib import data
+    if l[0] not in ("struct", "union", "flex"):
+        return
+    if l[0] == "flex":
+        table = {n: data.Field(real(s), o) for n, s, o in l[2]}
+        L = data.FlexibleLayout(l[1], table)
+    else:
+        table = {n: real(s) for n, s in l[1]}
+        L = (data.StructLayout if l[0] == "struct" else data.UnionLayout)(table)
+    before = [(k, L[k].offset, L[k].width) for k, _s, _o in fields(l)]
+    size, keys = L.size, [k for k, _f in L]
+    names = list(table)
+    edit = rng.choice(["add", "remove", "replace", "reorder"])
+    if edit == "add" or not names:
+        table["zz_added_later"] = data.Field(real(["u", 1]), 0) if l[0] == "flex" else real(["u", 3])
+    elif edit == "remove":
+        del table[names[0]]
+    elif edit == "replace":
+        table[names[-1]] = data.Field(real(["u", 1]), 0) if l[0] == "flex" else real(["u", 7])
+    else:
+        first = table.pop(names[0])
+        table[names[0]] = first
+    out["hist"]["constructor-mapping-edited:" + edit] = out["hist"].get("constructor-mapping-edited:" + edit, 0) + 1
+    try:
+        after = [(k, L[k].offset, L[k].width) for k, _s, _o in fields(l)]
+        size2, keys2 = L.size, [k for k, _f in L]
+    except Exception as e:
+        if exc_origin(e) != "repo":
+            raise
+        raise V("layout-changed-when-the-constructor-mapping-was-edited", edit=edit, exception=repr(e)[:200])
+    if after != before or size2 != size or keys2 != keys:
+        raise V("layout-changed-when-the-constructor-mapping-was-edited", edit=edit, before=before, after=after,
+                fields_before=keys, fields_after=keys2)
 
 
 def array_nodes(l, base=0, path=()):
@@ -572,6 +612,72 @@ def check_sim(l, rng, out):
         raise V(bad[0][0], **bad[0][1])
 
 
+def check_mixed_drivers(l, rng, out):
+    """Fields of one view driven from different places (some combinationally, some from a register, some not at
+    all) over an underlying signal with a non-zero initial value: assigning one field never changes another, and
+    undriven fields keep their initial bits - observed after every input change and clock edge."""
+    from amaranth.hdl import Module, Signal, ClockDomain, Value, Cat
+    from amaranth.lib import data
+    from amaranth.sim import Simulator
+    if is_leaf(l) or lsize(l) == 0:
+        return
+    lp = [x for x in leaf_paths(l) if lsize(x[1]) > 0]
+    spans = sorted((off, off + lsize(leaf)) for _p, leaf, off in lp)
+    if len(lp) < 2 or any(a[1] > b[0] for a, b in zip(spans, spans[1:])):
+        return                    # (overlapping fields - unions - have no per-field owner)
+    size = lsize(l)
+    init = rng.getrandbits(size) | 1 << rng.randrange(size)
+    m = Module()
+    cd = ClockDomain("sync", reset_less=True)
+    m.domains.sync = cd
+    raw = Signal(size, init=init, name="raw")
+    view = data.View(real(l), raw)
+    vin = Signal(8, name="vin")
+    roles = []
+    for path, leaf, off in lp:
+        role = rng.choice(["comb", "sync", "none"]) if leaf[0] != "enum" else "none"
+        roles.append(role)
+        tgt = Value.cast(view_path(view, path))
+        if role == "comb":
+            m.d.comb += tgt.eq(vin)
+        elif role == "sync":
+            m.d.sync += tgt.eq(vin + 1)
+    if "comb" not in roles or roles.count("none") + roles.count("sync") == 0:
+        return
+    sim = Simulator(m)
+    bad = []
+    out["hist"]["mixed-driver-views"] = out["hist"].get("mixed-driver-views", 0) + 1
+
+    async def tb(ctx):
+        held = {i: None for i, r in enumerate(roles) if r == "sync"}
+        v = 0
+        for step in range(12):
+            if rng.random() < 0.6:
+                v = rng.getrandbits(8)
+                ctx.set(vin, v)
+                what = "input change"
+            else:
+                ctx.set(cd.clk, 1)
+                for i in held:
+                    held[i] = (v + 1) & 0xff
+                ctx.set(cd.clk, 0)
+                what = "clock edge"
+            got = ctx.get(raw)
+            out["evaluations"] += 1
+            for i, ((path, leaf, off), role) in enumerate(zip(lp, roles)):
+                w = lsize(leaf)
+                fm = (1 << w) - 1
+                exp = v & fm if role == "comb" else ((init >> off) & fm if role == "none" or held[i] is None else held[i] & fm)
+                if (got >> off) & fm != exp:
+                    bad.append(dict(step=step, after=what, path=list(path), driven=role, roles=roles, initial=init, vin=v,
+                                    got=(got >> off) & fm, expected=exp, underlying=got))
+                    return
+    sim.add_testbench(tb)
+    sim.run()
+    if bad:
+        raise V("view-field-changed-by-assignment-to-another-field:" + bad[0]["driven"] + "-field", **bad[0])
+
+
 # ---- enums -----------------------------------------------------------------------------------------
 def check_enum_laws(rng, out):
     from amaranth.hdl import Const as HConst, Shape
@@ -715,7 +821,8 @@ def run_shard(spec):
         out["extra"]["layouts"] += 1
         for label, fn in (("static", lambda: check_static(l, rng, out)), ("const", lambda: check_const(l, rng, out)),
                           ("slices", lambda: check_array_slices(l, rng, out)),
-                          ("sim", lambda: check_sim(l, rng, out)), ("synth", lambda: check_synth(l, rng, out))):
+                          ("sim", lambda: check_sim(l, rng, out)), ("mixed-drivers", lambda: check_mixed_drivers(l, rng, out)),
+                          ("synth", lambda: check_synth(l, rng, out))):
             try:
                 fn()
             except V as v:
@@ -772,7 +879,8 @@ def replay(rec):
                      "synth_field_reads": 0, "synth_field_writes": 0, "array_slices": 0}}
     hits = []
     for label, fn in (("static", lambda: check_static(l, rng, out)), ("const", lambda: [check_const(l, rng, out) for _ in range(10)]),
-                      ("sim", lambda: check_sim(l, rng, out)), ("synth", lambda: check_synth(l, rng, out))):
+                      ("sim", lambda: check_sim(l, rng, out)), ("mixed-drivers", lambda: check_mixed_drivers(l, rng, out)),
+                          ("synth", lambda: check_synth(l, rng, out))):
         try:
             fn()
         except V as v:
